@@ -251,11 +251,16 @@ def latest_cases(chk, drv, work):
         # give back at the restart
         over = rng.choice([{}, {}, {'rMin': 1.0, 'rMax': 9.0}, {'rMax': 11.5}, {'vMax': 6.0}, {'rMin': 0.5, 'vMax': 8.25}])
         attrs_w = {}
+        stale_params = it % 3 == 1
         aux_times = sorted({max(times) + 7, min(times) + 1, rng.choice(times) + 3, 5} - set(times))
 
         def prepare():
             comm = MPI.COMM_WORLD
             # the folder and initParams.json are made by the real setupSave from a real Constants object
+            if stale_params:
+                # the folder was used before by a run with other constants: its parameter file must be replaced
+                g0, c0, _ = setupCylindricalGrid(constantFile=cfile, layout=layname, comm=comm, eps=0.5, m=3, n=2)
+                setupSave(c0, folder, comm)
             grid, constants, t0 = setupCylindricalGrid(constantFile=cfile, layout=layname, comm=comm, allocateSaveMemory=True, **over)
             setupSave(constants, folder, comm)
             attrs_w[comm.Get_rank()] = public_attrs(constants)
@@ -266,7 +271,7 @@ def latest_cases(chk, drv, work):
             for t in aux_times:
                 grid.getAllData()[:] = lu.expected_block(2 * base - t, grid.getLayout(layname))
                 grid.writeH5Dataset(folder, t, 'aux')
-            return [float(x[0]) for x in grid.eta_grid]
+            return [[float(y) for y in x] for x in grid.eta_grid]
         # process grid is chosen by the code itself here (compute_2d_process_grid)
         w = lu.run_ranks(int(np.prod(PW)), prepare)
         case = {'npts': npts, 'times': times, 'requested': want_time, 'ranks_write': int(np.prod(PW)), 'ranks_read': PR_n,
@@ -281,6 +286,7 @@ def latest_cases(chk, drv, work):
             grid, constants, t = setupFromFile(folder, comm=comm, allocateSaveMemory=True, layout='v_parallel', **kw)
             L = grid.getLayout(grid.currentLayout)
             out = {'t': t, 'layout': grid.currentLayout, 'blk': np.array(grid.getAllData(), copy=True),
+                   'eta': [[float(y) for y in x] for x in grid.eta_grid],
                    'starts': [int(x) for x in L.starts], 'ends': [int(x) for x in L.ends], 'constants': public_attrs(constants)}
             # the latest checkpoint of the OTHER family, by name (loadFromFile wants the grid in the layout of the file)
             grid.setLayout(layname)
@@ -306,6 +312,13 @@ def latest_cases(chk, drv, work):
             continue
         exp_t = max(times) if want_time is None else want_time
         want = np.transpose(base + exp_t, STD4['v_parallel'])
+        eta_w = w.values()[0]
+        for ri, o in enumerate(r.values()):
+            if o['eta'] != eta_w:
+                bad_ax = [i for i in range(4) if o['eta'][i] != eta_w[i]]
+                chk.fail('C18:restart-grid', 'the restarted run lives on other grid points than the run that wrote the checkpoint (axes %s)' % bad_ax,
+                         dict(case, rank=ri), expected={'first_last': [[e[0], e[-1]] for e in eta_w]}, actual={'first_last': [[e[0], e[-1]] for e in o['eta']]})
+                break
         cw = attrs_w.get(0)
         for ri, o in enumerate(r.values()):
             bad = [k for k in cw if k in o['constants'] and repr(o['constants'][k]) != repr(cw[k])] if cw else []
@@ -419,6 +432,12 @@ def constants_cases(chk, drv, work):
                    "deltaR": rng.choice(["4.0*deltaRN0/deltaRTi", "deltaRN0/deltaRTi*4", "(4.0*deltaRN0)/(deltaRTi)", "deltaRN0/(.25*deltaRTi)"]),
                    "vMin": rng.choice(["-vMax", "-1*vMax", "0-vMax", "-(vMax)"]), "zMax": rng.choice(["R0*2*pi", "2*pi*R0", "R0*(pi+pi)", "pi*R0/.5"])}
             items = [(k, alt.get(k, v)) for k, v in items]
+        zeros = it % 7 == 3
+        if zeros:
+            # constants that are exactly zero (no perturbation, an axisymmetric mode, a flat density profile): a value like any other
+            zv = {'eps': 0.0, 'm': 0, 'n': 0, 'kN0': 0.0, 'iotaVal': 0.0}
+            pick = rng.sample(sorted(zv), rng.randint(1, 4))
+            items = [(k, (zv[k] if k in pick else v)) for k, v in items]
         rng.shuffle(items)
         if it % 5 == 0:
             # vary the values, keep the dependency structure
@@ -432,6 +451,10 @@ def constants_cases(chk, drv, work):
             continue
         got = public_attrs(c)
         given = dict(items)
+        wrong = sorted(k for k, v in items if not isinstance(v, str) and k in got and got[k] != v)
+        if wrong:
+            chk.fail('C18:constants-value', 'a constant given as a number in the parameter file is not reproduced by the parser',
+                     {'order': [k for k, _ in items], 'keys': wrong}, expected={k: given[k] for k in wrong}, actual={k: got[k] for k in wrong})
         if 'CN0' in given and got.get('CN0') != given['CN0']:
             chk.fail('C18:constants-CN0', 'an explicitly given CN0 is not reproduced by the parser', {'order': [k for k, _ in items]},
                      expected=given['CN0'], actual=got.get('CN0'))
@@ -448,7 +471,7 @@ def constants_cases(chk, drv, work):
             chk.fail('C18:constants-expr', 'a symbolic entry of the parameter file does not equal its expression evaluated with the values of the file',
                      {'order': [k for k, _ in items], 'values': {k: v for k, v in items if isinstance(v, float)}},
                      expected={k: env[k] for k in badk}, actual={k: got.get(k) for k in badk})
-        if it % 5 != 0 and it % 3 != 2:
+        if it % 5 != 0 and it % 3 != 2 and not zeros:
             refc = dict(ref, CN0=given['CN0']) if 'CN0' in given else ref
             if got != refc:
                 bad = sorted(k for k in refc if got.get(k) != refc[k])
